@@ -61,8 +61,8 @@ def _stale_loop_contracts(I):
     import ast
     out = []
     for q, specs in I.loops.items():
-        if q not in I.functions_executed:
-            continue
+        if q not in I.functions_executed or q not in I.unrolled_in_contract_fn:
+            continue            # (a contract whose loop is simply gone leaves straight-line code: obligations on it stand)
         try:
             node = I.resolve(q).node
         except Exception:
